@@ -135,7 +135,7 @@ def _split_top(s):
 
 
 class Weaver:
-    def __init__(self, repo, spec_path, config_override=None, auto_request=None, auto_opaque=None):
+    def __init__(self, repo, spec_path, config_override=None, auto_request=None, auto_opaque=None, auto_inline=None):
         self.repo = repo
         self.spec_path = spec_path
         self.cur_path = spec_path
@@ -152,6 +152,7 @@ class Weaver:
         self.dropped = []      # what extraction dropped (for evidence)
         self.rewrite_log = []
         self.auto_request = set(auto_request or ())   # method names the verifier reported missing: extract them automatically
+        self.auto_inline = set(auto_inline or ())     # contract-less helpers whose statement-position calls are replaced by their body (R37)
         self.auto_opaque = set(auto_opaque or ())     # helpers whose body is outside the Verus subset: kept opaque (no contract, body not verified)
 
     # ---------------------------------------------------------------- util
@@ -173,6 +174,8 @@ class Weaver:
         self.auto_emitted = set()
         self.block_fns = []     # (name, tags, body text) of fns extracted in the current impl block
         self.auto_helpers = []
+        self.auto_contractless = []
+        self.inlined = []
         self._prescan(self.spec_path)
         # the unit's configuration is needed before the first `//@ ifcfg`
         for l in open(self.spec_path, encoding="utf-8").read().split("\n"):
@@ -446,13 +449,85 @@ class Weaver:
             block.append((lineno, "        // auto-extracted helper kept opaque: its body is outside the Verus subset, nothing is assumed about it"))
         elif returns and ";" not in inner and not re.search(r"\b(let|loop|while|for|return)\b", inner):
             arg += " ret=r"
-            block.append((lineno, "        ensures r == (%s)   // #auto-%s (auto-extracted helper: its own body is its contract)" % (" ".join(inner.split()), h)))
+            spec_inner, _c = apply_rewrites(inner, only=FREE_RULES)      # std-definition rules also in the contract text (closures with patterns are not spec expressions)
+            block.append((lineno, "        ensures r == (%s)   // #auto-%s (auto-extracted helper: its own body is its contract)" % (" ".join(spec_inner.split()), h)))
+        else:
+            # a helper with statements: verified on its own, but callers learn nothing from it (no postcondition is invented)
+            self.auto_contractless.append(h)
+        if (tname, h) in self.auto_opaque or h in self.auto_opaque:
+            self.auto_contractless.append(h)
         self.auto_emitted.add((tname, h))
         self.auto_helpers.append("%s::%s" % (tname, h))
         saved = (self.ctx_alias, self.ctx_impl, self.ctx_type)
         self.ctx_alias, self.ctx_impl, self.ctx_type = alias, imp, tname
         self.do_fn(arg, block, lineno)
         self.ctx_alias, self.ctx_impl, self.ctx_type = saved
+
+    def _find_helper(self, h):
+        for alias, srcf in self.sources.items():
+            for imp in srcf.items:
+                if imp.kind != "impl" or _is_cfg_test(imp) or " as " in _impl_self_type(imp.name):
+                    continue
+                for it in imp.children:
+                    if it.kind == "fn" and it.name == h and it.body_open >= 0 and not _is_cfg_test(it):
+                        return srcf, it
+        return None, None
+
+    def inline_helpers(self, body, qname):
+        """R37: a statement `RECV.h(ARGS);` that calls a private helper for which no contract exists is replaced by the helper's
+        body (beta reduction): arguments are bound once, in order, to fresh names, then to the parameter names; `self` in the
+        helper body becomes RECV (a place expression). Side conditions, checked here: the helper takes `&self` / `&mut self`,
+        has no `return`, no `?`, does not call itself, its value is not used at the call site. Otherwise the call is left alone
+        (and the caller stays undecidable modularly)."""
+        for h in sorted(self.auto_inline):
+            srcf, it = self._find_helper(h)
+            if it is None:
+                continue
+            sig = strip_comments_keep_lines(rl.text_of(srcf.toks, it.head, it.body_open - 1))
+            hb = strip_comments_keep_lines(rl.text_of(srcf.toks, it.body_open, it.last)).strip()
+            m = re.search(r"\(\s*&\s*(?:'\w+\s+)?(?:mut\s+)?self\s*(?:,(.*))?\)\s*(?:->.*)?$", " ".join(sig.split()), re.S)
+            if not m or re.search(r"\breturn\b|\?", hb) or re.search(r"\b%s\s*\(" % re.escape(h), hb):
+                continue
+            params = []
+            ok = True
+            for prm in [x for x in _split_top(m.group(1) or "") if x.strip()]:
+                pm = re.match(r"^\s*(?:mut\s+)?(\w+)\s*:\s*(.+?)\s*$", prm, re.S)
+                if not pm:
+                    ok = False
+                    break
+                params.append((pm.group(1), pm.group(2)))
+            if not ok:
+                continue
+            pat = re.compile(r"(?<![\w.])((?:self\s*\.\s*)?\w+(?:\s*\.\s*\w+)*?)\s*\.\s*%s\s*\(" % re.escape(h))
+            pos = 0
+            while True:
+                cm = pat.search(body, pos)
+                if not cm:
+                    break
+                close = _match_paren_txt(body, cm.end() - 1)
+                rest = body[close + 1:] if close >= 0 else ""
+                before = body[:cm.start()].rstrip()
+                stmt_pos = (before == "" or before[-1] in ";{}") and rest.lstrip().startswith(";")
+                if close < 0 or not stmt_pos:
+                    pos = cm.end()
+                    continue
+                args = [a.strip() for a in _split_top(body[cm.end():close]) if a.strip()]
+                if len(args) != len(params):
+                    pos = cm.end()
+                    continue
+                recv = "".join(cm.group(1).split())
+                btoks = rl.tokenize(hb)
+                hb2 = "".join((recv if (t.kind == rl.IDENT and t.text == "self") else t.text) for t in btoks)
+                binds = "".join("let vx_a%d: %s = %s; " % (k, params[k][1], a) for k, a in enumerate(args))
+                binds += "".join("let %s = vx_a%d; " % (params[k][0], k) for k in range(len(args)))
+                new = "{ %s%s }" % (binds, " ".join(hb2.split()))
+                semi = close + 1 + (len(rest) - len(rest.lstrip())) + 1
+                old = body[cm.start():semi]
+                new = new + ("\n" * old.count("\n"))
+                body = body[:cm.start()] + new + body[semi:]
+                pos = cm.start() + len(new)
+                self.inlined.append("%s: %s inlined" % (qname, h))
+        return body
 
     # ---------------------------------------------------------------- fns
     def do_fn(self, arg, block, lineno):
@@ -575,6 +650,8 @@ class Weaver:
             body = body[:k + 1] + " let mut vx_self = self;" + body[k + 1:]
             self.rewrite_log.append("%s: R34 (mut self)" % qname)
         body, counts = apply_rewrites(body, declared={r1 for r in rw_expect for r1 in r.split('+')})
+        if self.auto_inline and name not in self.auto_inline:
+            body = self.inline_helpers(body, qname)
         info.rewrites = counts
         declared = set()
         for r, c in rw_expect.items():
@@ -759,6 +836,44 @@ class Weaver:
     # ---------------------------------------------------------------- output
     def text(self):
         return "\n".join(l.text for l in self.out) + "\n"
+
+
+def _match_paren_txt(body, i):
+    depth, j, in_str = 0, i, False
+    while j < len(body):
+        ch = body[j]
+        if in_str:
+            if ch == "\\":
+                j += 1
+            elif ch == '"':
+                in_str = False
+        elif ch == '"':
+            in_str = True
+        elif ch in "([{":
+            depth += 1
+        elif ch in ")]}":
+            depth -= 1
+            if depth == 0:
+                return j
+        j += 1
+    return -1
+
+
+def _split_top(s):
+    out, depth, cur = [], 0, ""
+    for ch in s:
+        if ch in "([{<":
+            depth += 1
+        elif ch in ")]}>":
+            depth -= 1
+        if ch == "," and depth == 0:
+            out.append(cur)
+            cur = ""
+        else:
+            cur += ch
+    if cur.strip():
+        out.append(cur)
+    return out
 
 
 def _impl_self_type(norm_header):
